@@ -35,6 +35,15 @@ type idErr struct {
 
 func (e *idErr) Error() string { return fmt.Sprintf("E%d", e.id) }
 
+// multiErr is ONE error that offers Unwrap() []error (like errors.Join): the container must keep it whole.
+type multiErr struct {
+	id      int
+	members []error
+}
+
+func (e *multiErr) Error() string   { return fmt.Sprintf("M%d(%d members)", e.id, len(e.members)) }
+func (e *multiErr) Unwrap() []error { return e.members }
+
 func checkA(c CaseA) *ev.Violation {
 	var ecs [2]*tabular.ErrorContainer
 	switch c.Ctor {
@@ -56,7 +65,14 @@ func checkA(c CaseA) *ev.Violation {
 			return nil
 		}
 		if pool[id] == nil {
-			pool[id] = &idErr{id}
+			switch id % 7 {
+			case 3:
+				pool[id] = &multiErr{id: id, members: []error{&idErr{-id}, &idErr{-id - 1000}}}
+			case 5:
+				pool[id] = &multiErr{id: id} // no members at all
+			default:
+				pool[id] = &idErr{id}
+			}
 		}
 		return pool[id]
 	}
@@ -169,11 +185,20 @@ var whens = mk(tabular.CB_AT_ADD, tabular.CB_AT_RENDER_PRECELL, tabular.CB_AT_RE
 var targets = mk(tabular.CB_ON_ITSELF, tabular.CB_ON_CELL, tabular.CB_ON_ROW)
 
 type hErr struct {
-	src string // source: "reg<N>", "row<N>"
-	seq int
+	src   string // source: "reg<N>", "row<N>"
+	seq   int
+	multi bool // offers Unwrap() []error; still one error
 }
 
 func (e *hErr) Error() string { return fmt.Sprintf("%s#%d", e.src, e.seq) }
+
+// Unwrap makes some harness errors look like errors.Join results; they are still single entries of the list.
+func (e *hErr) Unwrap() []error {
+	if !e.multi {
+		return nil
+	}
+	return []error{fmt.Errorf("member-a-of-%s#%d", e.src, e.seq), fmt.Errorf("member-b-of-%s#%d", e.src, e.seq)}
+}
 
 type raised struct {
 	e    *hErr
@@ -198,12 +223,14 @@ func (f *failCB) UpdateProperties(po tabular.PropertyOwner) error {
 		return nil // even registrations fail on every other invocation only
 	}
 	f.w.seq++
-	e := &hErr{src: fmt.Sprintf("reg%d", f.reg), seq: f.w.seq}
+	e := &hErr{src: fmt.Sprintf("reg%d", f.reg), seq: f.w.seq, multi: f.w.seq%5 == 0}
 	f.w.raised = append(f.w.raised, raised{e, f.w.home})
 	return e
 }
 
-const misuseText = "can't add cells to a non-cell row"
+// Errors the harness did not create are the library's own (on the unchanged tree: the misuse error of adding a
+// cell to a non-cell row).  They are identified by NOT being harness errors, never by their wording: a reworded
+// message or a sentinel value must not raise an alarm.
 
 func checkB(c CaseB) *ev.Violation {
 	t := gen.NewTable(c.Creator)
@@ -248,8 +275,13 @@ func checkB(c CaseB) *ev.Violation {
 		}
 		got := t.Errors()
 		if len(want) == 0 && misuse == 0 {
-			if got != nil {
-				return ev.V("step %d (%s): table reports %v but no error has been raised", step, k, got)
+			for _, e := range got {
+				if _, mine := e.(*hErr); mine || e == nil {
+					return ev.V("step %d (%s): table reports %v but no error has been raised", step, k, got)
+				}
+			}
+			if got != nil && len(got) == 0 {
+				return ev.V("step %d (%s): the error list is empty but not nil", step, k)
 			}
 			return nil
 		}
@@ -262,9 +294,7 @@ func checkB(c CaseB) *ev.Violation {
 			}
 			he, ok := e.(*hErr)
 			if !ok {
-				if e.Error() == misuseText {
-					gotMisuse++
-				}
+				gotMisuse++
 				continue
 			}
 			if seen[he] {
@@ -284,8 +314,11 @@ func checkB(c CaseB) *ev.Violation {
 				return ev.V("step %d (%s): error %v was raised but the table does not report it (table reports %v)", step, k, he, got)
 			}
 		}
-		if gotMisuse != misuse {
-			return ev.V("step %d (%s): %d cells were added to non-cell rows of the table but it reports %d such errors: %v", step, k, misuse, gotMisuse, got)
+		if gotMisuse < misuse {
+			return ev.V("step %d (%s): %d cells were added to non-cell rows of the table but it reports only %d errors of its own: %v", step, k, misuse, gotMisuse, got)
+		}
+		if gotMisuse > misuse {
+			ev.R().Count("library-errors-beyond-the-misuse-errors", 1)
 		}
 		if len(got) == 0 {
 			return ev.V("step %d (%s): table error list is empty-but-non-nil or nil although errors were raised", step, k)
@@ -321,7 +354,7 @@ func checkB(c CaseB) *ev.Violation {
 				break
 			}
 			w.seq++
-			e := &hErr{src: fmt.Sprintf("row%p", r), seq: w.seq}
+			e := &hErr{src: fmt.Sprintf("row%p", r), seq: w.seq, multi: w.seq%3 == 0}
 			home := r
 			if r.Attached {
 				home = nil
